@@ -376,7 +376,13 @@ def rule_solar_class(chk, prog):
   mean = A.name(lambda t: t == S('mean_irradiance'), 'mean', positive=True)
   var = A.name(lambda t: t == S('variation'), 'variation', nonnegative=True)
   # the clamp indicator (s > 0) is invariant under positive rescaling of the irradiance; both sides carry the same atom
-  lhs, rhs = A.conv(vn) * (mean + var), A.conv(vf)
+  cn, cf = clamp_at_zero(vn), clamp_at_zero(vf)
+  if cn is not None and cf is not None and cn[0] == cf[0]:
+    # both are (positive factor) × clamp of the same sine of altitude, whatever the clamp idiom: compare the factors
+    prod = lambda fs: sp.Mul(*[A.conv(x) for x in fs]) if fs else sp.Integer(1)
+    lhs, rhs = prod(cn[2]) * (mean + var), prod(cf[2])
+  else:
+    lhs, rhs = A.conv(vn) * (mean + var), A.conv(vf)
   chk.check(alg.equal(lhs, rhs), rule, f'{site}: normalised flux = flux / (mean + variation) for the same orbital time, longitude and latitude (peak irradiance 1, seasonal cycle kept)',
             str(sp.simplify(lhs / rhs))[:160] if rhs != 0 else 'flux is 0', loc, 'flux/(mean + variation)', str(sp.simplify(lhs / rhs))[:200] if rhs != 0 else '')
   f = c.find_method('normalized')
